@@ -199,6 +199,25 @@ def r02_2(ctx):
     r = guards.returns_of(fs.node)
     ok = bool(r) and src(r[-1].value) == 'pyx_findspan(self.kv, self.p, u)'
     ctx.decide('R02.2', fs.qual, src(r[-1]) if r else 'return', ok or None, fs.node, 'one span-search implementation')
+    # the vectorised search is an elementwise map: the span of u[i] may not depend on the nodes before it (collocation
+    # accepts nodes in any order)
+    vs = ctx.prog.func(CY + '.pyx_findspans')
+    loops = [l for l in own_nodes(vs.node) if isinstance(l, ast.For)]
+    if not loops:
+        ctx.undecided('R02.2', vs.qual, 'span search per node', vs.node, 'no loop over the nodes')
+    else:
+        l = loops[0]
+        carried = guards.loop_carried(l)
+        stores = [s for s in ast.walk(l) if isinstance(s, ast.Assign) and isinstance(s.targets[0], ast.Subscript) and src(s.targets[0].value) in ('result', 'out')]
+        if carried:
+            ctx.violated('R02.2', vs.qual, 'span search per node is stateless', l,
+                         'the loop over the nodes carries %s from one node to the next: the span reported for u[i] depends on the nodes before it, '
+                         'which is only right for ascending node arrays (collocation / interpolation accept any order)' % ', '.join(sorted(carried)))
+        elif stores:
+            ctx.expect('R02.2', vs.qual, stores[0].value, 'pyx_findspan(kv, p, u[i])', stores[0], 'each node is located by the scalar search',
+                       label='result[i] = ' + src(stores[0].value))
+        else:
+            ctx.undecided('R02.2', vs.qual, 'span search per node', l, 'store into the result not recognised')
 
 
 def bisect_table(iff):
